@@ -1,0 +1,100 @@
+//go:build verif
+
+// Verification hook (property check C41 of /verif, engine "gwframes"). Additive only: exposes
+// the unexported frame encoder and the ingress worker's frame processing so that a harness can
+// run real encoder -> (reordered / dropped / duplicated frames) -> real worker in one
+// goroutine. Compiles away without the `verif` build tag.
+
+package dataplane
+
+import (
+	"context"
+
+	"github.com/scionproto/scion/pkg/addr"
+	"github.com/scionproto/scion/pkg/snet"
+	"github.com/scionproto/scion/private/ringbuf"
+)
+
+// Constants the harness needs.
+const (
+	VerifHdrLen            = hdrLen
+	VerifMinMTU            = minMTU
+	VerifReassemblyListCap = reassemblyListCap
+	VerifRingSize          = ringSize
+)
+
+// VerifEncoder wraps the real encoder.
+type VerifEncoder struct{ e *encoder }
+
+func NewVerifEncoder(sessionID uint8, streamID uint32, mtu uint16) *VerifEncoder {
+	return &VerifEncoder{e: newEncoder(sessionID, streamID, mtu)}
+}
+
+// Write does what encoder.Write does (a non-blocking write to the packet ring) and reports the
+// ring's answer: 1 = queued, 0 = ring full (the packet is silently dropped), -1 = closed.
+func (v *VerifEncoder) Write(pkt []byte) int { return v.e.ring.Write(pkt, false) }
+
+// Read is encoder.Read. It blocks if nothing is pending and the encoder is not closed.
+func (v *VerifEncoder) Read() []byte { return v.e.Read() }
+
+// Close is encoder.Close.
+func (v *VerifEncoder) Close() { v.e.Close() }
+
+// Residual is the number of bytes of the current packet that did not fit into the last frame.
+func (v *VerifEncoder) Residual() int { return len(v.e.pkt) }
+
+type verifTun struct{ out *[][]byte }
+
+func (t verifTun) Write(b []byte) (int, error) {
+	*t.out = append(*t.out, append([]byte(nil), b...))
+	return len(b), nil
+}
+
+func (t verifTun) Close() error { return nil }
+
+// VerifWorker wraps a real ingress worker whose output device records the packets.
+type VerifWorker struct {
+	w   *worker
+	out [][]byte
+}
+
+func NewVerifWorker() *VerifWorker {
+	v := &VerifWorker{}
+	remote := &snet.UDPAddr{IA: addr.MustParseIA("1-ff00:0:110")}
+	v.w = newWorker(remote, 0, verifTun{out: &v.out}, IngressMetrics{})
+	return v
+}
+
+// ProcessFrame takes a frame buffer from the pool exactly like IngressServer.read, copies the
+// frame into it and hands it to worker.processFrame. It returns the packets written to the
+// device during the call.
+func (v *VerifWorker) ProcessFrame(raw []byte) [][]byte {
+	frames := make(ringbuf.EntryList, 1)
+	if n := newFrameBufs(frames); n != 1 {
+		panic("verif: no frame buffer")
+	}
+	frame := frames[0].(*frameBuf)
+	frame.frameLen = copy(frame.raw, raw)
+	frame.sessId = frame.raw[1]
+	before := len(v.out)
+	v.w.processFrame(context.Background(), frame)
+	return v.out[before:]
+}
+
+// Entries is the number of frames waiting in the reassembly list of the epoch (-1: no list).
+func (v *VerifWorker) Entries(epoch int) int {
+	l, ok := v.w.rlists[epoch]
+	if !ok {
+		return -1
+	}
+	return l.entries.Len()
+}
+
+// Release returns all frame buffers held by the reassembly lists to the pool (the pool has
+// 1024 buffers; a harness running many trials must release them).
+func (v *VerifWorker) Release() {
+	for epoch, l := range v.w.rlists {
+		l.removeAll()
+		delete(v.w.rlists, epoch)
+	}
+}
